@@ -29,16 +29,17 @@ claim("C01", TV,
       "translation validation of emitted CLIF against a reference semantics in z3 (path-wise symbolic execution, symbolic arguments)", "T", "DESIGN.md 5/C01, 10.4")
 claim("C02", MC,
       "Kani/CBMC: the layout arithmetic behind every field and payload offset, for all sizes <= 2^16 and alignments <= 16 (inductive step, union, "
-      "concat, offset_by). Engine T: records/enums with symbolic field contents - construct, copy, mutate one copy, compare, match: result equals "
-      "value semantics for all arguments.",
-      "List sharing, strings, generic and anonymous records are outside; see DESIGN.md 10.6.",
+      "concat, offset_by). Engine T: records/enums with symbolic field contents - construct, copy, mutate one copy, compare, match; strings are "
+      "values; list copies share pushes (also from inside a for loop): result equals the reference for all arguments.",
+      "Generic and anonymous records and lists of aggregates are outside; see DESIGN.md 10.6.",
       "Kani/CBMC bounded model checking of runtime/layout.rs + z3 translation validation of record/enum programs", "K+T", "DESIGN.md 5/C02")
 claim("C03", TV,
-      "For every program of family F6 (a drop-tracked host value at 27 control-flow positions) and every feasible path of the emitted CLIF "
+      "For every program of families F6/F6R/F11/F13 (drop-tracked host values, strings, f-strings and lists at enumerated and random control-flow "
+      "positions) and every feasible path of the emitted CLIF "
       "(feasibility decided by z3): the ownership ledger balances - no double drop, no use after drop, no operation on a never-initialised slot, "
       "nothing live at return except what is returned.",
-      "Ledger keyed by the unique id in each instance's bytes; host functions own their by-value arguments. Strings, lists (incl. for loops) and "
-      "f-strings are not modelled - a seeded double drop in `for` is not detected (DESIGN.md 10.11).",
+      "Ledger keyed by the unique id in each instance's bytes; host functions own their by-value arguments. Tracked host values, strings "
+      "(incl. f-strings) and lists (incl. for loops) are modelled; script/registered constants and panicking host functions are not.",
       "path-wise symbolic execution of emitted CLIF with an ownership ledger; path feasibility by z3", "T", "DESIGN.md 5/C03")
 claim("C05", MC,
       "Kani/CBMC, one harness per instantiation (30): for all payload values the repr(u8) mirror of Option/Result/Verdict has tag and payload where "
@@ -53,9 +54,10 @@ claim("C06", MC,
       "declaration). Stubs: record_almost_keyword -> no-op; for err_span next_token -> 'skip any prefix and decline'.",
       "Kani/CBMC bounded model checking of src/parser/lexer.rs recognisers over all short UTF-8 inputs", "K", "DESIGN.md 5/C06")
 claim("C08", TV,
-      "For every program of F7/F7R/F6 (effectful host calls at every operand, argument, field, guard, condition and statement position) and every "
+      "For every program of F7/F7R/F6/F6R/F11/F12E/F13 (effectful host calls at every operand, argument, field, list element, f-string part, guard, "
+      "condition and statement position) and every "
       "jointly feasible path pair: the sequence of host calls and their argument values in the emitted CLIF equals the reference trace, for all inputs.",
-      "List elements, f-string parts and accept/reject are outside; loop bound 3/4.",
+      "accept/reject and method receivers are outside; loop bound 3/4.",
       "translation validation of the host-call trace of emitted CLIF against a reference semantics in z3", "T", "DESIGN.md 5/C08")
 claim("C09", MC,
       "Kani/CBMC: number / hex / AS-number / quoted-literal / identifier recognisers vs reference scanners written from the documented grammar on every "
